@@ -24,11 +24,11 @@ package netpoll
 
 //@ pred wfcur(b *UnsafeLinkBuffer) = b != nil && inb(b, b.head) && inb(b, b.read) && inb(b, b.flush) && inb(b, b.write)
 //@     && b.head.ord <= b.read.ord && b.read.ord <= b.flush.ord && b.flush.ord <= b.write.ord
-//@ pred wflin(b *UnsafeLinkBuffer) = forall n *linkBufferNode, m *linkBufferNode ::
+//@ pred wflin(b *UnsafeLinkBuffer) = forall n *linkBufferNode, m *linkBufferNode {n.ord, m.ord} ::
 //@     inb(b, n) && inb(b, m) && n.ord < m.ord ==> n.next != nil && n.next.own == b && n.next.ord > n.ord && n.next.ord <= m.ord
 //@ pred wfclosed(b *UnsafeLinkBuffer) = forall n *linkBufferNode {n.next} ::
 //@     inb(b, n) && n.next != nil ==> n.next.own == b && n.next.ord > n.ord
-//@ pred wfuniq(b *UnsafeLinkBuffer) = forall n *linkBufferNode, m *linkBufferNode ::
+//@ pred wfuniq(b *UnsafeLinkBuffer) = forall n *linkBufferNode, m *linkBufferNode {n.ord, m.ord} ::
 //@     inb(b, n) && inb(b, m) && n.ord == m.ord ==> n == m
 //@ pred wfnode(b *UnsafeLinkBuffer) = forall n *linkBufferNode ::
 //@     inb(b, n) ==> 0 <= n.off && n.off <= len(n.buf) && len(n.buf) <= n.malloc && n.malloc <= cap(n.buf)
@@ -224,10 +224,11 @@ package netpoll
 //@   ensures old(n < 0) ==> err != nil && unchanged(UnsafeLinkBuffer.mallocSize, UnsafeLinkBuffer.write, linkBufferNode.malloc, linkBufferNode.refer, linkBufferNode.buf)
 //@   ensures old(n >= 0) ==> err == nil && wf(b) && others(b) && b.mallocSize == n && b.length == old(b.length) && rpos(b) == old(rpos(b)) && fpos(b) == old(fpos(b))
 //@   modifies b.mallocSize, b.write, linkBufferNode.malloc, linkBufferNode.refer, linkBufferNode.buf
-//@   loop 1 invariant ack >= 0 && (ack == 0 ==> n == 0) && inb(b, b.write) && b.flush.ord <= b.write.ord && b.write.ord <= old(b.write.ord)
+//@   loop 1 invariant ack >= 0 && ack <= n && (ack == 0 ==> n == 0 && b.write == b.flush && b.write.malloc == len(b.write.buf)) && inb(b, b.write) && b.flush.ord <= b.write.ord && b.write.ord <= old(b.write.ord)
 //@   loop 1 invariant b.write.sp + len(b.write.buf) - fpos(b) == n - ack
 //@   loop 2 invariant node == nil || (inb(b, node) && node.ord > b.write.ord)
 //@   loop 2 invariant forall m *linkBufferNode :: inb(b, m) && m.ord > b.write.ord && (node == nil || m.ord < node.ord) ==> m.malloc == m.off && len(m.buf) == m.off && cap(m.buf) >= m.off
-//@   loop 2 invariant forall m *linkBufferNode :: !(inb(b, m) && m.ord > b.write.ord && (node == nil || m.ord < node.ord)) ==> (m.malloc == old(m.malloc) || m == b.write) && sameslice(m.buf, old(m.buf)) && m.refer == old(m.refer)
+//@   loop 2 invariant forall m *linkBufferNode :: !(inb(b, m) && m.ord > b.write.ord && (node == nil || m.ord < node.ord)) ==> (m.malloc == old(m.malloc) || m == b.write)
+//@   loop 2 invariant forall m *linkBufferNode :: !(inb(b, m) && m.ord > b.write.ord && (node == nil || m.ord < node.ord)) ==> sameslice(m.buf, old(m.buf)) && m.refer == old(m.refer)
 //@   loop 2 invariant forall m *linkBufferNode :: m == b.write ==> m.malloc <= old(m.malloc) && m.malloc >= len(m.buf)
-//@   loop 2 invariant b.mallocSize == n && (n > 0 ==> mpos(b) - fpos(b) == n)
+//@   loop 2 invariant b.mallocSize == n && mpos(b) - fpos(b) == n
